@@ -214,7 +214,8 @@ class MultiTerm(qcore.Query):
 
         if len(qs) == 1:
             # If there's only one term, just use it
-            m = qs[0].matcher(searcher, context)
+            m = Term(fieldname, qs[0].text,
+                     boost=self.boost).matcher(searcher, context)
         else:
             if constantscore:
                 # To tell the sub-query that score doesn't matter, set weighting
